@@ -412,5 +412,37 @@ def check_frames(res, tr):
             return
     if list(pre.index) != [np.datetime64(t) for t in times] and [x.to_pydatetime() for x in pre.index] != times:
         res.fail("TrackRecord.net_liquidation_value() index differs from the entries' times")
+    if res.violations:
+        return
+    # burn=True drops the initial checkpoints that traded nothing (the account was all cash), and nothing else
+    k0 = next((k for k in range(n) if len(tr[k].trades) != 0), n)
+    burned = tr.net_liquidation_value(burn=True)
+    want = [float(tr[k].context_pre.nlv) for k in range(k0, n)]
+    if [float(x) for x in burned.iloc[:, 0]] != want:
+        res.fail("TrackRecord.net_liquidation_value(burn=True) has %d rows; dropping the %d initial no-trade checkpoints of %d leaves %d" % (
+            len(burned), k0, n, n - k0))
+        return
+    if len(tr.transaction_costs(burn=True, cumulative=False)) != n - k0:
+        res.fail("TrackRecord.transaction_costs(burn=True) has %d rows, expected %d" % (len(tr.transaction_costs(burn=True, cumulative=False)), n - k0))
+        return
+    # weights frames: one row per executed decision, aligned with the NLV frame
+    wt = tr.weights_target()
+    wa = tr.weights_actual()
+    for name, frame in (("weights_target", wt), ("weights_actual", wa)):
+        if len(frame) != n or [x.to_pydatetime() if hasattr(x, "to_pydatetime") else x for x in frame.index] != times:
+            res.fail("TrackRecord.%s() has %d rows for %d executed decisions (or another index than the NLV frame)" % (name, len(frame), n))
+            return
+    for k in range(n):
+        for c, v in tr[k].allocation.items():
+            got = float(wt.iloc[k][c]) if c in wt.columns else float("nan")
+            if not (got == float(np.float32(v))):
+                res.fail("TrackRecord.weights_target() row %d shows %r for %s, the executed allocation says %r" % (k, got, c, float(v)))
+                return
+        others = [c for c in wt.columns if c not in tr[k].allocation]
+        if any(not np.isnan(float(wt.iloc[k][c])) for c in others):
+            res.fail("TrackRecord.weights_target() row %d has values for contracts outside the executed allocation" % k)
+            return
+    if len(tr.weights_target(burn=True)) != n - k0 or len(tr.weights_actual(burn=True)) != n - k0:
+        res.fail("weights frames with burn=True have %d / %d rows, expected %d" % (len(tr.weights_target(burn=True)), len(tr.weights_actual(burn=True)), n - k0))
     if any(not a < b_ for a, b_ in zip(times, times[1:])):
         res.fail("track record times are not strictly increasing")
